@@ -56,12 +56,12 @@ type vfPeerHandle struct {
 
 // vfPeerReq records one received request.
 type vfPeerReq struct {
-	Pkt   *vfPkt
-	Raw   []byte // frame body
-	Bad   string // non-empty when the frame did not decode as a request
-	Reply []byte // the frame this peer answered with (after mutation), nil if none
-	ReqEnd   int // offset in the client->peer stream just after this request
-	ReplyEnd int // offset in the peer->client stream just after the reply (0 = not written yet)
+	Pkt      *vfPkt
+	Raw      []byte // frame body
+	Bad      string // non-empty when the frame did not decode as a request
+	Reply    []byte // the frame this peer answered with (after mutation), nil if none
+	ReqEnd   int    // offset in the client->peer stream just after this request
+	ReplyEnd int    // offset in the peer->client stream just after the reply (0 = not written yet)
 }
 
 type vfPeer struct {
@@ -79,15 +79,15 @@ type vfPeer struct {
 	closedHs map[string]bool
 
 	// policies
-	window    int      // hold up to this many replies (0/1 = answer at once)
-	order     []int    // i-th release picks held[order[i] % len(held)]
-	released  int
-	failAt    map[uint64]uint32 // READ/WRITE offset -> status code
-	failMsg   func(off uint64, code uint32) string
-	mutate    func(idx int, req *vfPkt, frame []byte) []byte // may return nil to drop the reply
-	shortRead map[uint64]int                                 // READ offset -> max bytes returned (honest peers never use this)
-	onRequest func(idx int, req *vfPkt)
-	outOfFIFO int // number of releases that bypassed an older held reply
+	window     int   // hold up to this many replies (0/1 = answer at once)
+	order      []int // i-th release picks held[order[i] % len(held)]
+	released   int
+	failAt     map[uint64]uint32 // READ/WRITE offset -> status code
+	failMsg    func(off uint64, code uint32) string
+	mutate     func(idx int, req *vfPkt, frame []byte) []byte // may return nil to drop the reply
+	shortRead  map[uint64]int                                 // READ offset -> max bytes returned (honest peers never use this)
+	onRequest  func(idx int, req *vfPkt)
+	outOfFIFO  int    // number of releases that bypassed an older held reply
 	versionRaw []byte // when set, sent verbatim instead of the VERSION frame
 
 	held []vfHeldReply
